@@ -842,17 +842,20 @@ def check_delivery(w, q):
                     continue
                 # topics holding a retained message at subscription time and ever since (until d)
                 cands = []
+                maybe = 0          # topics that may have held a retained message when the sweep ran
                 for tp, hist in w.retained_hist.items():
                     if not topic_matches(tp, path):
                         continue
                     before = [pl for (n, pl) in hist if n < since]
                     during = [pl for (n, pl) in hist if since <= n < nb]
+                    if (before and before[-1] is not None) or any(pl is not None for pl in during):
+                        maybe += 1
                     if before and before[-1] is not None and all(pl is not None for pl in during):
                         cands.append((tp, set([before[-1]] + during)))
                 if not cands:
                     continue
                 room = w.cfg["maxout"] if qos == 0 else 100 - qos_fwd_total
-                if len(cands) > room:
+                if maybe > room:
                     w.skips["c15-replay-may-not-fit"] += 1
                     continue
                 for (tp, vals) in cands:
